@@ -181,16 +181,17 @@ Inductive hres :=
 | ResBad (why : gerr).      (* Marshal fails with this error: *json.UnsupportedTypeError / UnsupportedValueError
                                (EPlain text) or *json.MarshalerError (EWrap "json: error calling ..." cause) *)
 
-(* invoke: (t.val, t.err).  The error of a notification handler is discarded; the
-   error of json.Marshal is not. *)
-Definition invoke (is_note : bool) (r : hres) (e : gerr) : bytes * gerr :=
+(* invoke: (t.val, t.err).  The error of a notification handler is discarded, and so is
+   (since fix F15; switch [fix15]) the error of json.Marshal on a notification's result. *)
+Definition invoke_gen (fix15 : bool) (is_note : bool) (r : hres) (e : gerr) : bytes * gerr :=
   if is_nil e then
     match r with
     | ResJson raw => (raw, enil)
-    | ResBad why => ([], why)
+    | ResBad why => if fix15 && is_note then ([], enil) else ([], why)
     end
   else if is_note then ([], enil)
   else ([], e).
+Definition invoke : bool -> hres -> gerr -> bytes * gerr := invoke_gen true.
 
 (* the code tasks.responses gives an error that is not itself a *Error: ErrorCode, with
    InternalError standing in for NoError *)
@@ -300,11 +301,12 @@ Definition outcome_code (o : outcome) : option Z :=
   end.
 
 (* one notification: what the server sends for it (nothing, normally) *)
-Definition notify (r : hres) (e : gerr) : option werr :=
-  match respond true (invoke true r e) with
+Definition notify_gen (fix15 : bool) (r : hres) (e : gerr) : option werr :=
+  match respond true (invoke_gen fix15 true r e) with
   | Some (RpError w) => transit w
   | _ => None
   end.
+Definition notify : hres -> gerr -> option werr := notify_gen true.
 
 (* the domain on which a reply is produced at all *)
 Definition deliverable (e : gerr) : bool :=
